@@ -115,7 +115,14 @@ func randNoNul(rng *rand.Rand, n int) string {
 }
 func pick(rng *rand.Rand, xs ...int) int { return xs[rng.Intn(len(xs))] }
 
+// addresses with a meaning of their own (link-local, loopback, multicast, broadcast, "this network", CGNAT, private):
+// the codec and the builders carry addresses, they do not judge them
+var specialIPs = []net.IP{{169, 254, 1, 2}, {127, 0, 0, 1}, {224, 0, 0, 1}, {239, 255, 255, 250}, {0, 0, 0, 1}, {100, 64, 0, 1}, {192, 168, 0, 1}, {240, 0, 0, 1}, {10, 0, 0, 0}, {10, 255, 255, 255}}
+
 func randIP(rng *rand.Rand) net.IP {
+	if rng.Intn(5) == 0 {
+		return append(net.IP(nil), specialIPs[rng.Intn(len(specialIPs))]...)
+	}
 	switch rng.Intn(4) {
 	case 0:
 		return nil
